@@ -21,6 +21,11 @@ CHECKS.update({
             "mutation during the workload; monotonicity relation over one-step extensions",
             "all accepted words <= 4/5 steps x parameter draws, with and without validation, step 1-3, CLI runs", "3 C20"),
 })
+CHECKS.update({
+    "C02": ("reference-model monitor: left/right cost volumes captured at the matching_cost step hook and compared "
+            "element-wise with a brute-force per-pixel reference; NUMBA_BOUNDSCHECK + as_strided bounds monitor on a share of the shards",
+            "generated pairs over measures x windows x subpix x interval kinds x masks x bands; exact for SAD/census", "3 C02"),
+})
 NOTES = {}
 
 def main():
